@@ -753,6 +753,60 @@ class SepSplit(_ModeMixin, CartesianProductStrategy):
         return W(w[:i]), W(w[i]), W(w[i + 1:])
 
 
+class SW1(SW):
+    """words u.sep.v with u, v over the alphabet avoiding the patterns (exactly one separator): a product whose two outer
+    factors are the *same* class"""
+
+    def words(self, size):
+        for i in range(size):
+            for u in product(self.alphabet, repeat=i):
+                for v in product(self.alphabet, repeat=size - 1 - i):
+                    a, b = "".join(u), "".join(v)
+                    if all(p not in a and p not in b for p in self.patterns):
+                        yield W(a + self.sep + b)
+
+    def _key(self):
+        return ("SW1", self.alphabet, self.sep, self.patterns, self.params)
+
+    def __hash__(self):
+        return hash(self._key())
+
+    def __repr__(self):
+        return "SW1" + super().__repr__()[2:]
+
+    __str__ = __repr__
+
+
+class SplitDot(CartesianProductStrategy):
+    """u.sep.v = Av(P) x sep x Av(P): the same child class on both sides of the separator"""
+
+    def decomposition_function(self, c):
+        if not isinstance(c, SW1):
+            return None
+        side = PW("", c.patterns, c.alphabet, False, ())
+        return (side, PW(c.sep, [], c.alphabet + (c.sep,), True, ()), side)
+
+    def extra_parameters(self, c, children=None):
+        return ({}, {}, {})
+
+    def formal_step(self):
+        return "split at the separator"
+
+    def backward_map(self, c, ws, children=None):
+        yield W(ws[0] + ws[1] + ws[2])
+
+    def forward_map(self, c, w, children=None):
+        i = w.index(c.sep)
+        return W(w[:i]), W(w[i]), W(w[i + 1:])
+
+    @classmethod
+    def from_dict(cls, d):
+        return cls()
+
+    def __repr__(self):
+        return "SplitDot()"
+
+
 class PAtom(VerificationStrategy):
     def __init__(self):
         super().__init__(ignore_parent=True)
